@@ -288,8 +288,40 @@ BAD_UNITS = ["degrees", "DEG", "radians", "", "grad", "Rad", None, 1]
 
 
 def s_unit():
-    return st.fixed_dictionaries({"kind": st.just("unit"), "name": st.sampled_from(UNIT_FUNCS), "a": st.lists(gens.fl(-PI, PI), min_size=3, max_size=3),
-                                  "axis": gens.axis3(-1, 1), "order": st.sampled_from(GOOD_ORDERS)})
+    ang = st.one_of(gens.fl(-PI, PI), gens.fl(-PI, PI), st.sampled_from([0.0, PI / 2, -PI / 2, PI]))
+    return st.fixed_dictionaries({"kind": st.just("unit"), "name": st.sampled_from(UNIT_FUNCS), "a": st.lists(ang, min_size=3, max_size=3),
+                                  "axis": gens.axis3(-1, 1), "order": st.sampled_from(GOOD_ORDERS),
+                                  "exact_pitch": st.sampled_from([None, None, PI / 2, -PI / 2])})
+
+
+SCALAR_TYPES = ["int", "float", "np.int64", "np.int32", "np.float64", "np.int8"]
+
+
+def s_scalartype():
+    names = [n for n in UNIT_FUNCS if n not in RETURNING and n not in ("getunit/list",)]
+    return st.fixed_dictionaries({"kind": st.just("scalartype"), "name": st.sampled_from(names), "deg": st.lists(st.integers(-120, 120), min_size=3, max_size=3),
+                                  "type": st.sampled_from(SCALAR_TYPES), "unit": st.sampled_from(["deg", "rad"]), "order": st.sampled_from(GOOD_ORDERS)})
+
+
+def gen_scalartypes(tier):
+    names = [n for n in UNIT_FUNCS if n not in RETURNING and n not in ("getunit/list",)]
+    for n in names:
+        for t in SCALAR_TYPES:
+            for u in ("deg", "rad"):
+                yield {"kind": "scalartype", "name": n, "deg": [30, -45, 60], "type": t, "unit": u, "order": "zyx"}
+
+
+def _scalartype(case):
+    """an integer-valued angle gives the same result whatever numeric scalar type carries it"""
+    name, unit = case["name"], case["unit"]
+    c = Checker("scalartype", name=name, type=case["type"], unit=unit)
+    conv = {"int": int, "float": float, "np.int64": np.int64, "np.int32": np.int32, "np.float64": np.float64, "np.int8": np.int8}[case["type"]]
+    vals = case["deg"] if unit == "deg" else [v % 4 - 1 for v in case["deg"]]      # small integers as radians
+    ok1, ref = c.lib(name + "/float", _unit_call, name, [float(v) for v in vals], [0.0, 0.0, 1.0], case["order"], unit)
+    ok2, got = c.lib(name + "/" + case["type"], _unit_call, name, [conv(v) for v in vals], [0.0, 0.0, 1.0], case["order"], unit)
+    if ok1 and ok2:
+        c.eq(name + "/type=float", got, ref, 1e-12, max(1.0, float(np.max(np.abs(np.asarray(ref, dtype=float))))))
+    return c.out
 
 
 def gen_options(tier):
@@ -363,7 +395,7 @@ def _args(sp, case):
 
 
 def check_case(case):
-    return {"form": _form, "wronglen": _wronglen, "unit": _unit, "badorder": _badorder, "goodorder": _goodorder, "badunit": _badunit,
+    return {"form": _form, "wronglen": _wronglen, "unit": _unit, "scalartype": _scalartype, "badorder": _badorder, "goodorder": _goodorder, "badunit": _badunit,
             "packed": _packed}[case["kind"]](case)
 
 
@@ -478,7 +510,12 @@ def _unit(case):
     axis = list(case["axis"])
     c = Checker("unit", name=name, order=case["order"])
     if name in RETURNING:
+        pitch = case.get("exact_pitch")
         R = refs.polish(refs.rotz(a[0]) @ refs.roty(a[1] / 2.1) @ refs.rotx(a[2]))
+        if pitch is not None:
+            # exactly at the singularity of the requested order
+            from .c05_angles import rpy_ref
+            R = refs.polish(rpy_ref(a[0], pitch, a[2], case["order"]))
         T2 = refs.rt(refs.rot2(a[0]), [1.0, 2.0])
         ok1, r = c.lib(name + "/rad", RETURNING[name], R, T2, "rad", case["order"])
         ok2, d = c.lib(name + "/deg", RETURNING[name], R, T2, "deg", case["order"])
@@ -564,6 +601,9 @@ def classify(case):
     elif k == "wronglen":
         lab["nontrivial"] = True
         lab["len:%d" % case["len"]] = True
+    elif k == "scalartype":
+        lab["nontrivial"] = case["type"] not in ("float",)
+        lab["type:" + case["type"]] = True
     elif k == "unit":
         lab["nontrivial"] = True
         lab["returned_angle"] = case["name"] in RETURNING
@@ -579,5 +619,7 @@ def subchecks(tier):
         Sub("options", gen=gen_options, shards=(2, 4)),
         Sub("form_values", strategy=s_form(), n=(400, 10000), shards=(6, 16)),
         Sub("unit", strategy=s_unit(), n=(400, 8000), shards=(4, 16)),
+        Sub("scalartypes", gen=gen_scalartypes, shards=(2, 4)),
+        Sub("scalartype", strategy=s_scalartype(), n=(200, 4000), shards=(2, 8)),
         Sub("packed", strategy=s_packed(), n=(200, 3000), shards=(2, 8)),
     ]
